@@ -55,6 +55,7 @@ pub enum Act_ {
     Anon(u32, u32),
     Store(u32),
     DropH(u32),
+    PDropH(u32),
     SlabAdd(u32, u32, Notif),
     SlabLen,
     IsZombie(u32),
@@ -256,6 +257,7 @@ impl<'a> P<'a> {
             }
             "store" => Act_::Store(self.u()?),
             "droph" => Act_::DropH(self.u()?),
+            "pdrop" => Act_::PDropH(self.u()?),
             "slabadd" => {
                 let h = self.u()?;
                 let a = self.u()?;
